@@ -375,7 +375,7 @@ class CaT(Channel):
         v_u1 = v + vx + 81.0
         u_inf = 1.0 / (1.0 + save_exp(v_u1 / 4))
 
-        tau_u = (30.8 + (211.4 + save_exp((v + vx + 113.2) / 5.0))) / (
+        tau_u = 30.8 + (211.4 + save_exp((v + vx + 113.2) / 5.0)) / (
             3.7 * (1 + save_exp((v + vx + 84.0) / 3.2))
         )
 
